@@ -49,7 +49,7 @@ SHAPES = {
     "get_10": (b"GET", b"1.0", None, None),
     "get_10_ka": (b"GET", b"1.0", b"keep-alive", None),
 }
-APP_KINDS = ["after", "before", "noread", "gated"]
+APP_KINDS = ["after", "before", "noread", "gated", "abort"]  # abort: raises after the response start + one chunk (no content-length)
 
 
 def req_bytes(i: int, shape: str) -> tuple:
@@ -75,6 +75,9 @@ def app_prog(i: int, kind: str) -> list:
         return [("send", start), ("send", end)]
     if kind == "gated":
         return [("recv_body",), ("gate", "g%d" % i), ("send", start), ("send", end)]
+    if kind == "abort":
+        return [("recv_body",), ("send", {"type": "http.response.start", "status": 200, "headers": []}),
+                ("send", {"type": "http.response.body", "body": b"r", "more_body": True}), ("raise",)]
     raise ValueError(kind)
 
 
@@ -105,6 +108,10 @@ def scenarios(tier: str) -> List[Any]:
                     else:
                         step = 1 if len(pl) <= 2 else 3
                         segs += [("cut", c) for c in range(1, total, step)] + ["bytes"]
+                    if kind == "abort" and SHAPES[pl[0]][1] == b"1.0":
+                        continue  # close-delimited body: truncation is invisible by protocol design
+                    if kind == "gated" and len(pl) >= 2:
+                        segs.append("wfail")  # the peer goes away (failed write) while response 0 is being written
                     for seg in segs:
                         out.append((engine, pl, mx, kind, seg))
     return out
@@ -124,7 +131,7 @@ def build(params: Any) -> tuple:
     engine, pl, mx, kind, seg = params
     reqs = [req_bytes(i, s) for i, s in enumerate(pl)]
     blob = b"".join(r for r, _ in reqs)
-    if seg == "whole":
+    if seg in ("whole", "wfail"):
         parts = [blob]
     elif seg == "bytes":
         parts = [blob[i:i + 1] for i in range(len(blob))]
@@ -136,6 +143,8 @@ def build(params: Any) -> tuple:
     apps = {"http:/r%d" % i: app_prog(i, kind if i == 0 else "after") for i in range(len(pl))}
     sources = [("client", [("data", 0, p) for p in parts if p]),
                ("app", [("release", "g0")]), ("clock", [("tick",)])]
+    if seg == "wfail":
+        sources.insert(1, ("fault", [("wfail", 0)]))
     sc = {"level": "conn", "conns": {0: {"carrier": "h1", "methods": [SHAPES[s][0] for s in pl]}},
           "client_factory": make_client, "apps": apps,
           "config": {"keep_alive_timeout": 5, "keep_alive_max_requests": mx},
@@ -158,7 +167,7 @@ def oracle(w: Any, params: Any) -> List[dict]:
     insts = [i for i in w.instances if i.type == "http"]
     tag = f"{kind}:{'+'.join(pl)}:max{mx}"
     short = f"{kind}:max{mx}"
-    if cl.error is not None:
+    if cl.error is not None and kind != "abort" and rec.lost_at is None:
         out.append(V("parse-error", short, f"{tag}: {cl.error} out={bytes(rec.out)[:200]!r}"))
     # instances are created in request order, each for its own path
     for n, inst in enumerate(insts):
@@ -192,6 +201,22 @@ def oracle(w: Any, params: Any) -> List[dict]:
             out.append(V("body-crossed", short + ":two-ends", f"{tag}: instance {n} got {len(ends)} end-of-body messages"))
         if ends and got != want:
             out.append(V("body-crossed", short + ":short", f"{tag}: instance {n} body ended after {got!r}, want {want!r}"))
+    # an aborted response / a lost peer ends the connection: nothing behind it is processed
+    if kind == "abort" and insts and insts[0].outcome == "raised:AppCrash":
+        if len(insts) > 1:
+            out.append(V("served-after-abort", short, f"{tag}: the response of request 0 was aborted, yet instance 1 exists"))
+        if cl.responses and cl.responses[0]["complete"]:
+            out.append(V("aborted-response-complete", short, f"{tag}: the aborted response parsed as complete: {cl.responses[0]['body']!r}"))
+        if rec.closed_at is None and all(i.outcome != "running" for i in insts):
+            out.append(V("not-closed", short + ":abort", f"{tag}: connection still open after the aborted response"))
+        out.extend(internal_errors(w))
+        return out
+    if rec.lost_at is not None:
+        late = [i for i in insts if rec.lost_seq is not None and i.seq_start > rec.lost_seq]
+        if late:
+            out.append(V("served-after-abort", short + ":peer-lost", f"{tag}: instance(s) {[i.scope['path'] for i in late]} created after the write failed"))
+        out.extend(internal_errors(w))
+        return out
     # the reuse rule
     all_fed = w.driver.pos[0] == len(w.driver.sources[0][1])
     settled = all(i.outcome != "running" for i in insts)
